@@ -53,7 +53,7 @@ func genC11(rt *rapid.T) pdCase {
 	for i := 0; i < n; i++ {
 		l := fmt.Sprintf("s%d", i)
 		st := pdStep{
-			Kind: rapid.SampledFrom([]string{"poll", "poll", "poll", "post", "post", "postBlocked", "postBlocked", "release", "release", "abortPoll", "abortPost", "postWhileHandlerBusy", "appSend", "appSend", "appClose", "wait", "heartbeat", "postClose", "postWrongHeartbeat", "closeWhileBusySlowConn", "slowPoll", "pollInsideWrite", "pollInsideWrite"}).Draw(rt, l+".kind"),
+			Kind: rapid.SampledFrom([]string{"poll", "poll", "poll", "post", "post", "postBlocked", "postBlocked", "release", "release", "abortPoll", "abortPost", "postWhileHandlerBusy", "appSend", "appSend", "appClose", "wait", "heartbeat", "postClose", "postWrongHeartbeat", "closeWhileBusySlowConn", "slowPoll", "pollInsideWrite", "pollInsideWrite", "postWrongType"}).Draw(rt, l+".kind"),
 			Sess: rapid.IntRange(0, c.NSess-1).Draw(rt, l+".sess"),
 			N:    rapid.IntRange(1, 5).Draw(rt, l+".n"),
 		}
@@ -76,6 +76,7 @@ type pdSess struct {
 	wantMsgs []Pkt
 	accepted []*Exchange // requests the server accepted
 	refused  []*Exchange // requests that must be answered 400
+	turned   []*Exchange // requests the transport turns away for another reason: one response with a 4xx status
 	inPost   *Exchange   // exchange whose payload is being processed right now (for the ok-ordering hook)
 }
 
@@ -139,12 +140,20 @@ func runC11(c pdCase) (fail string, stats map[string]bool) {
 		return ps
 	}
 
+	mkMsgsNoCount := func(n int) []Pkt {
+		var ps []Pkt
+		for i := 0; i < n; i++ {
+			ps = append(ps, msgT(fmt.Sprintf("x%d", i)))
+		}
+		return ps
+	}
+
 	check := func(what string) string {
 		if hookFail != "" {
 			return what + ": " + hookFail
 		}
 		for i, s := range ss {
-			for _, e := range append(append([]*Exchange{}, s.accepted...), s.refused...) {
+			for _, e := range append(append(append([]*Exchange{}, s.accepted...), s.refused...), s.turned...) {
 				snap := e.Snap()
 				if snap.Panic != nil {
 					return fmt.Sprintf("%s: handler of %s %s panicked: %v", what, e.Method, e.URL, snap.Panic)
@@ -178,6 +187,12 @@ func runC11(c pdCase) (fail string, stats map[string]bool) {
 				snap := e.Snap()
 				if !snap.Responded || snap.Status != 400 {
 					return fmt.Sprintf("%s: session #%d: overlapping / late %s request answered %v, want 400", what, i, e.Method, snap)
+				}
+			}
+			for _, e := range s.turned {
+				snap := e.Snap()
+				if !snap.Responded || snap.Status < 400 || snap.Status > 499 || !snap.Returned {
+					return fmt.Sprintf("%s: session #%d: %s request with a content type the revision does not allow answered %v (handler returned: %v), want one 4xx response", what, i, e.Method, snap, snap.Returned)
 				}
 			}
 			if s.closed {
@@ -416,6 +431,29 @@ func runC11(c pdCase) (fail string, stats map[string]bool) {
 				if hadPoll {
 					stats["wrong-heartbeat-with-poll-pending"] = true
 				}
+			}
+			pc.Poll = nil
+		case "postWrongType":
+			// a data request whose content type the session's revision does not allow (binary payloads are a
+			// revision-3 format): the transport turns it away, the session ends with a transport error; the request
+			// is still owed its one response, and a pending poll its release
+			if s.closed || s.post != nil || c.Rev != 4 {
+				break
+			}
+			hadPoll := s.poll != nil && !s.poll.Snap().Responded
+			body := encPayloadV3Binary(mkMsgsNoCount(st.N))
+			e := pc.StartPostRaw(body, "application/octet-stream", func(r *ReqSpec) {
+				if st.Block%3 == 0 {
+					r.ContentLength = -1
+					r.BodyChunk = 7
+				}
+			})
+			Settle()
+			s.turned = append(s.turned, e)
+			closeCause(s, "transport error")
+			stats["data-request-with-disallowed-content-type"] = true
+			if hadPoll {
+				stats["disallowed-content-type-with-poll-pending"] = true
 			}
 			pc.Poll = nil
 		case "closeWhileBusySlowConn":
@@ -705,7 +743,7 @@ func TestC11PollingDiscipline(t *testing.T) {
 			rt.Fatalf("%v: %s", c, clipStr(res.Leak, 1500))
 		}
 	})
-	col.RequireClasses(t, "overlapping-poll", "overlapping-data-request", "aborted-poll", "aborted-data-request", "stalled-body-released", "poll-released-by-close", "poll-answered-by-send", "multi-packet-ack", "undisturbed-session-ok", "request-after-close", "data-request-while-handler-busy", "client-close-packet-with-poll-pending", "wrong-heartbeat-with-poll-pending", "two-responders-for-one-data-request", "poll-response-on-slow-connection", "poll-arriving-while-a-response-is-being-written")
+	col.RequireClasses(t, "overlapping-poll", "overlapping-data-request", "aborted-poll", "aborted-data-request", "stalled-body-released", "poll-released-by-close", "poll-answered-by-send", "multi-packet-ack", "undisturbed-session-ok", "request-after-close", "data-request-while-handler-busy", "client-close-packet-with-poll-pending", "wrong-heartbeat-with-poll-pending", "two-responders-for-one-data-request", "poll-response-on-slow-connection", "poll-arriving-while-a-response-is-being-written", "data-request-with-disallowed-content-type", "disallowed-content-type-with-poll-pending")
 }
 
 const sigTruncatedUpload = "aborted-upload-truncated-payload-processed"
